@@ -5,7 +5,7 @@ CONSTANTS
   Procs = {1, 2}
   Discipline = "free"
   Forced = TRUE
-  CallOps = {"Join", "Leave", "Get", "Others"}
+  CallOps = {"Join", "Leave", "Exists", "Get", "MembersLen", "Others", "Len"}
   MinMutators = 1
 INVARIANTS EmitSched
 CHECK_DEADLOCK FALSE
